@@ -25,9 +25,11 @@ MAX_CALLS = 5000
 def build_case(rng, spec, tier):
     prof = spec["profile"]
     tp = spec[tier]
-    kind = rng.choices(["random", "shape"], [tp.get("w_random", 1), tp.get("w_shape", 0)])[0]
+    kind = rng.choices(["random", "shape", "chain"], [tp.get("w_random", 1), tp.get("w_shape", 0), tp.get("w_chain", 0.25)])[0]
     if kind == "shape":
         return shape_case(rng, spec, tier)
+    if kind == "chain":
+        return chain_case(rng)
     enc = "utf-8"
     pool, text = make_pool(rng, n=rng.choice(prof.get("pool", (16, 30))), classes=prof.get("classes", ("real",)), encoding=enc,
                            long_ok=prof.get("long", False))
@@ -60,6 +62,30 @@ def shape_case(rng, spec, tier, perm=None, n=None, sub=None):
     cfg = {"backend": rng.choice(["file", "memory"]), "default": "domain", "encoding": "utf-8", "overwrite": False, "rules": []}
     return {"engine": "paging", "kind": "shape", "cfg": cfg, "ops": ops, "aseed": rng.getrandbits(32), "inserts": False,
             "all_k": True, "shape": [list(perm), list(subperm)]}
+
+
+def chain_case(rng):
+    """Long paths: 28-90 siblings inserted in sorted order (a degenerate sibling tree), or pages nested
+    one below another, or both: tokens whose path has 27+ steps (beyond 53 bits, beyond one machine word)."""
+    head = b"s:http|h:com|h:chain|"
+    mode = rng.choice(["asc", "desc", "nested", "mixed"])
+    n = rng.choice([28, 33, 40, 64, 65, 90])
+    pages = []
+    if mode in ("asc", "desc", "mixed"):
+        sib = [head + b"p:%03d|" % i for i in range(n)]
+        if mode == "desc":
+            sib.reverse()
+        pages += sib
+    if mode in ("nested", "mixed"):
+        cur = head + (b"p:%03d|" % (n - 1) if mode == "mixed" else b"")
+        for i in range(n if mode == "nested" else 20):
+            cur = cur + b"p:n%d|" % (i % 7)
+            pages.append(cur)
+    ops = [{"op": "add_pages", "lrus": pages[i:i + 10], "crawled": bool(i % 20), "as_str": False} for i in range(0, len(pages), 10)]
+    ops.append({"op": "add_links", "links": [[pages[i], pages[(i * 7 + 3) % len(pages)]] for i in range(0, len(pages), 3)], "as_str": False})
+    cfg = {"backend": rng.choice(["file", "memory"]), "default": "domain", "encoding": "utf-8", "overwrite": False, "rules": []}
+    return {"engine": "paging", "kind": "chain", "cfg": cfg, "ops": ops, "aseed": rng.getrandbits(32), "inserts": rng.random() < 0.3,
+            "max_we": 2, "chain": [mode, n]}
 
 
 # --------------------------------------------------------------------------
